@@ -96,7 +96,9 @@ type sys struct {
 	// noRestart: the restart events RS / RUs are not generated (configurations "restart=off")
 	noRestart bool
 	// ticks: event Dt(i) (the dead interval passes at i with stable links); used with parallel links
-	ticks     bool
+	ticks bool
+	// flaps: the fault event FC(a<b) (face re-created) is generated (configurations "faces=flap")
+	flaps     bool
 	trace     *dvsim.Trace
 	m         *dvsim.Machine
 	opsCache  map[string][]explore.Op
@@ -204,6 +206,8 @@ func (y *sys) ops(s *dvsim.Sim) []explore.Op {
 				ops = append(ops, explore.Op{Name: fmt.Sprintf("RSw(%d)", a), Dev: true})
 			}
 		}
+		// a face is re-created while advertisements are still being exchanged (and fetches are parked)
+		ops = append(ops, y.flapOps(s, sn)...)
 		return ops
 	}
 	if s.AnyBooting() {
@@ -246,7 +250,7 @@ func (y *sys) ops(s *dvsim.Sim) []explore.Op {
 		}
 	}
 	if !y.faultsAnywhere {
-		if q, _ := sn.RoutingQuiescent(); !q {
+		if q, _ := sn.FixedPoint(); !q {
 			return ops
 		}
 	}
@@ -260,6 +264,7 @@ func (y *sys) ops(s *dvsim.Sim) []explore.Op {
 			ops = append(ops, explore.Op{Name: fmt.Sprintf("LU(%d,%d)", e[0], e[1]), Dev: true})
 		}
 	}
+	ops = append(ops, y.flapOps(s, sn)...)
 	for a := 0; a < n; a++ {
 		if s.Nodes[a].Up {
 			ops = append(ops, explore.Op{Name: fmt.Sprintf("RD(%d)", a), Dev: true})
@@ -283,6 +288,35 @@ func (y *sys) ops(s *dvsim.Sim) []explore.Op {
 	for a := 0; y.window && a < n; a++ {
 		if s.Nodes[a].Up {
 			ops = append(ops, explore.Op{Name: fmt.Sprintf("RSw(%d)", a), Dev: true})
+		}
+	}
+	return ops
+}
+
+// flapOps: FC(a<b), the face on which a hears b is re-created (configurations faces=flap): the link
+// flaps for less than the dead interval, so b stays in a's neighbour table and neither table nor
+// sequence number changes, but b's sync Interests arrive on a new face id from now on and the old
+// one is dead. One end per event (the two ends react independently; a flap of both is two events).
+func (y *sys) flapOps(s *dvsim.Sim, sn *dvsim.Snap) []explore.Op {
+	var ops []explore.Op
+	if !y.flaps {
+		return nil
+	}
+	for a := 0; a < s.G.N; a++ {
+		for b := 0; b < s.G.N; b++ {
+			// (for a router that does not list the neighbour the event only renames a face it has
+			// never heard of)
+			// Bound: each face is re-created at most once per history (the harness has two ids per
+			// directed link; a second re-creation would bring the first id back, which a forwarder
+			// does not do).
+			if a != b && s.LinkLive(a, b) && !s.Parallel[[2]int{min(a, b), max(a, b)}] && sn.Knows(a, b) && !s.Alt[[2]int{a, b}] {
+				ops = append(ops, explore.Op{Name: fmt.Sprintf("FC(%d<%d)", a, b), Dev: true})
+				if s.Passive[[2]int{a, b}] {
+					// (configurations nbr=passive) b, discovered passively so far, becomes an explicitly
+					// configured neighbour: active sync Interests over a new face, the old one is gone
+					ops = append(ops, explore.Op{Name: fmt.Sprintf("AC(%d<%d)", a, b), Dev: true})
+				}
+			}
 		}
 	}
 	return ops
@@ -323,7 +357,7 @@ func applyOp(s *dvsim.Sim, nm string) {
 	case strings.HasPrefix(nm, "Pg("):
 		fmt.Sscanf(nm, "Pg(%d<%d)", &a, &b)
 		if s.Sends(a, b) {
-			s.Ping(a, b, true)
+			s.Ping(a, b, !s.Passive[[2]int{a, b}])
 		}
 	case strings.HasPrefix(nm, "Dl("):
 		fmt.Sscanf(nm, "Dl(%d<%d#%d)", &a, &b, &k)
@@ -344,6 +378,14 @@ func applyOp(s *dvsim.Sim, nm string) {
 	case strings.HasPrefix(nm, "DcR("):
 		fmt.Sscanf(nm, "DcR(%d)", &a)
 		s.DeadCheckRace(a)
+	case strings.HasPrefix(nm, "FC("):
+		fmt.Sscanf(nm, "FC(%d<%d)", &a, &b)
+		s.FaceFlap(a, b)
+	case strings.HasPrefix(nm, "AC("):
+		fmt.Sscanf(nm, "AC(%d<%d)", &a, &b)
+		if s.Passive[[2]int{a, b}] {
+			s.FaceActivate(a, b)
+		}
 	case strings.HasPrefix(nm, "LD("):
 		fmt.Sscanf(nm, "LD(%d,%d)", &a, &b)
 		s.LinkDown(a, b)
@@ -437,9 +479,11 @@ func (y *sys) Apply(i any, op explore.Op) []report.Violation {
 	}
 	y.m.Nondet = nil
 	sn := s.Snap()
-	q, _ := sn.RoutingQuiescent()
+	q, _ := sn.FixedPoint()
 	fs := sn.CheckShortest()
 	if q {
+		// what the routers have installed in their forwarders, against the live topology
+		fs = append(fs, sn.CheckInstalled()...)
 		for _, f := range fs {
 			if !seen[f.Clause+f.Key] {
 				seen[f.Clause+f.Key] = true
@@ -493,11 +537,11 @@ func (y *sys) CheckState(i any) []report.Violation {
 		}
 		sn := s.Snap()
 		tag := fmt.Sprintf("(after %d closing rounds, router order %v) ", rounds, order)
-		if q, why := sn.RoutingQuiescent(); !q {
+		if q, why := sn.FixedPoint(); !q {
 			v = append(v, report.Violation{Clause: "C18.fix", Key: "round-robin exchanges from an explored state do not reach a fixed point within 64 rounds", Detail: tag + why})
 			break
 		}
-		for _, f := range sn.CheckShortest() {
+		for _, f := range append(sn.CheckShortest(), sn.CheckInstalled()...) {
 			if !seen[f.Clause+f.Key] {
 				seen[f.Clause+f.Key] = true
 				v = append(v, report.Violation{Clause: f.Clause, Key: f.Key, Detail: tag + f.Detail})
@@ -595,7 +639,7 @@ func convergeOrder(s *dvsim.Sim, order []int) int {
 				s.EndOp()
 			}
 		}
-		if q, _ := s.RoutingQuiescent(); q {
+		if q, _ := s.Snap().FixedPoint(); q {
 			return round + 1
 		}
 	}
@@ -620,6 +664,7 @@ func build(cfg string) explore.System {
 	var down, par [][2]int
 	var opt dvsim.Options
 	twinsEvery := 0
+	passive := false // every neighbour is heard through passive discovery at first
 	for _, p := range parts[2:] {
 		fmt.Sscanf(p, "d=%d", &y.closureDepth)
 		fmt.Sscanf(p, "orders=%d", &y.orders)
@@ -638,6 +683,12 @@ func build(cfg string) explore.System {
 		}
 		if p == "restart=window" {
 			y.window = true
+		}
+		if p == "nbr=passive" {
+			passive = true
+		}
+		if p == "faces=flap" {
+			y.flaps = true
 		}
 		if p == "restart=off" {
 			y.noRestart = true
@@ -664,11 +715,17 @@ func build(cfg string) explore.System {
 		}
 	}
 	y.closed = map[string]bool{}
+	dvsim.CanonFaces = y.flaps // the canonical form lists re-created faces in these configurations only
 	// links listed in down= are down in the initial state (routers that join later)
 	y.ticks = len(par) > 0
 	init := func(s *dvsim.Sim) {
 		for _, e := range down {
 			s.LinkDown(e[0], e[1])
+		}
+		for _, e := range g.Edges {
+			if passive {
+				s.Passive[e], s.Passive[[2]int{e[1], e[0]}] = true, true
+			}
 		}
 		for _, e := range par {
 			if e[0] > e[1] {
@@ -797,7 +854,15 @@ func configs(th bool) []explore.Config {
 		// two parallel faces between the routers, sync Interests alternating between them, time passing
 		fault("n2:01 par=01 twins=1", 1)
 		fault("n3:01-02 par=01 twins=1", 1)
-		hold("n2:01 twins=1", 2, 0)
+		// faces=flap: fault event FC(a<b), the face on which a hears b is re-created (link flap shorter
+		// than the dead interval: neighbour entry, advertisement and sequence number unchanged, sync
+		// Interests on a new face id, the old one dead); nbr=passive: every neighbour is discovered
+		// passively at first, fault event AC(a<b): b becomes an explicitly configured neighbour (active
+		// sync Interests on a new face). With held ribUpdate tasks, and from the cold start with parked
+		// fetches:
+		hold("n2:01 faces=flap twins=1", 2, 0)
+		sched("n2:01 faces=flap nbr=passive twins=1", 2, 0)
+		sched("n3:01-02 faces=flap twins=4", 1, 0)
 		// Audit of the canonical form (dvsim/twins.go) where a search that de-duplicates on it cannot see
 		// its flaws: the cold-start state space of the triangle (the smallest graph on which a router
 		// learns a route to itself through a neighbour) without deviations, every operation - the
@@ -814,6 +879,15 @@ func configs(th bool) []explore.Config {
 				if strings.HasPrefix(g, "n3") {
 					// with the restart into the boot window, and the audit of the canonical form
 					g += " restart=window twins=1"
+				}
+				if strings.HasPrefix(g, "n2") {
+					g += " faces=flap nbr=passive twins=1"
+				}
+				if strings.HasPrefix(g, "n3") || g == "n4:01-03-12" {
+					g += " faces=flap" // re-created faces among the faults (see above)
+				}
+				if strings.HasPrefix(g, "n3:01-02 ") {
+					g += " nbr=passive"
 				}
 				fault(g, 2)
 			}
@@ -837,6 +911,11 @@ func configs(th bool) []explore.Config {
 		}
 		for _, g := range all {
 			if strings.HasPrefix(g, "n4") && strings.Count(g, "-")+1 >= 4 {
+				if strings.Count(g, "-")+1 == 4 {
+					// triangle with a tail, 4-cycle: a re-created face among the single faults (the face
+					// of a second-best next hop included)
+					g += " faces=flap"
+				}
 				faultClosed(g, 1, 3, 24)
 			}
 		}
@@ -1005,8 +1084,8 @@ func script(spec string) {
 			applyOp(s, op)
 		}
 		sn := s.Snap()
-		q, why := sn.RoutingQuiescent()
-		fmt.Printf("%-8s q=%v %s\n   %s\n   %v\n", op, q, why, sn.FullTables(), sn.CheckShortest())
+		q, why := sn.FixedPoint()
+		fmt.Printf("%-8s q=%v %s\n   %s\n   %v\n   installed: %v\n", op, q, why, sn.FullTables(), sn.CheckShortest(), sn.CheckInstalled())
 	}
 }
 
@@ -1031,7 +1110,7 @@ func main() {
 			if th {
 				return 25 * time.Minute
 			}
-			return 90 * time.Second // leaves room for the per-configuration minimum share and the graph analysis
+			return 55 * time.Second // leaves room for the per-configuration minimum share and the graph analysis
 		},
 		Rule: "BFS to a fixpoint over event histories on N real dv.Router objects per topology; every transition checks C18.adv, every fixed point C18.dist / C18.withdraw; the recorded state graph is then analysed in the parent for C18.fix (terminal states, bottom SCCs, fair cycles, longest path) and C18.unique (one routing table per live topology)",
 		Assumptions: []string{
